@@ -262,7 +262,15 @@ def _compare(check, res, det_alt, kind, tier, idx, override=None):
         )
 
 
-def _one_batch(ctx, tier, det_alt, obj, kind, allow_faults, tag):
+def _fresh_cloud(kind):
+    """A new cloud-function object of this kind (const kinds only): the caller's callables come and
+    go between batch calls, and a freed one's address is recycled for the next."""
+    if kind.startswith("const"):
+        return ConstCloud(float(kind[5:]))
+    return _cloud(kind)
+
+
+def _one_batch(ctx, tier, det_alt, obj, kind, allow_faults, tag, fresh_cloud=False, cloud_obj=None):
     ch = ctx.ch
     knob_on = ch.draw(8, "knob") != 7  # value 7: leave the literal partition_size=100
     idx, psize = _draw_batch(ctx, tier, knob_on)
@@ -277,7 +285,8 @@ def _one_batch(ctx, tier, det_alt, obj, kind, allow_faults, tag):
     poison_pos = poison_kind = None
     override = {}
     must_raise = False
-    cloudf = _cloud(kind)
+    cloudf = cloud_obj if cloud_obj is not None else _fresh_cloud(kind) if fresh_cloud else _cloud(kind)
+    cloud_obj = None
     if allow_faults and world.cfg["fault"] is None:
         pk = ch.draw(3, "poison")
         if pk == 1:  # an exception of a seeded type raised while one event is evaluated
@@ -350,9 +359,40 @@ def scn_faultfree(ctx):
     obj = CphotAng(det_alt)
     nb = 1 + ch.draw(2, "second_batch")
     held = None
+    vary = ch.draw(4, "second_batch_varies") if nb == 2 else 0
+    last_cloud_id = None
+    cobj = None
+
+    consts = [k for k in CLOUD_KINDS if k.startswith("const")]
+    if vary in (1, 3):
+        kind = consts[ch.draw(len(consts), "const_kind")]
     for b in range(nb):
         tag = f"b{b}"
-        res, exc, fired, idx, world, _ = _one_batch(ctx, tier, det_alt, obj, kind, False, tag)
+        if b == 1 and vary in (1, 3):
+            # the second batch comes with ANOTHER cloud function (a new object; the first one is gone)
+            kind = consts[(consts.index(kind) + 1 + ch.draw(len(consts) - 1, "other_const")) % len(consts)]
+            ctx.probes["second_batch_other_cloud_object"] += 1
+        if b == 1 and vary in (2, 3):
+            # ... and/or on a shallow copy of the evaluator, re-parameterised for another detector altitude
+            import copy
+
+            obj = copy.copy(obj)
+            det_alt = DET_ALTS[(DET_ALTS.index(det_alt) + 1 + ch.draw(2, "copy_alt")) % 3]
+            obj.detector_altitude = det_alt
+            ctx.probes["second_batch_on_reparameterised_shallow_copy"] += 1
+        if vary in (1, 3):
+            # the cloud function is created right here, and the previous one was dropped in the
+            # statement before: CPython hands the freed slot to the next object of the same size,
+            # so the new callable very often has the id() of the dead one
+            cobj = None
+            cobj = ConstCloud(float(kind[5:]))
+            ctx.probes["cloud_object_recycled_address"] += int(id(cobj) == last_cloud_id)
+            last_cloud_id = id(cobj)
+            res, exc, fired, idx, world, _ = _one_batch(ctx, tier, det_alt, obj, kind, False, tag, cloud_obj=cobj)
+        else:
+            res, exc, fired, idx, world, _ = _one_batch(ctx, tier, det_alt, obj, kind, False, tag)
+        world = None  # nothing of the finished call may keep its cloud function alive (and no gc.collect()
+        # here: an object that has been through a collection is not handed its old slot back)
         if held is not None and [np.asarray(a).tobytes() for a in held[0]] != held[1]:
             raise Violation("c10.result_overwritten", "the arrays returned by the first batch call changed while the caller held them (overwritten by the second call on the same object)", sig="CphotAng.__call__:aliasing")
         if exc is None and res is not None:
